@@ -55,7 +55,7 @@ def session_worker(args):
             out.append(r)
             continue
         cfg = s["cfg"]
-        r["cfg"] = {k: cfg[k] for k in ("which", "obs", "loss_type", "mode", "N", "G", "q", "M", "cont", "sigma")}
+        r["cfg"] = {k: cfg.get(k) for k in ("which", "obs", "loss_type", "mode", "N", "G", "q", "M", "cont", "sigma", "constraint")}
         r["cfg"]["priors"] = [(p["name"], p["dist"], list(p["args"]), p["logscale"], p["is_state"]) for p in cfg["table"]]
         if s["error"]:
             r["error"] = s["error"]
